@@ -308,3 +308,99 @@ pub fn check(c: &ConcCase, ctx: &mut CaseCtx) -> Result<(), Fail> {
     ctx.label(format!("blocks:{}", (chain.height() - h_setup).min(6)));
     Ok(())
 }
+
+// ------------------------------------------------------------------ samews
+
+/// Part `samews`: the *same* workspace handed to 2–3 real threads that all call `commit` at the
+/// same instant (spin start), `rounds` times on one chain, auto-merge off. The statement's
+/// "each committed workspace once": exactly one of the racing calls may answer Ok, the chain
+/// grows by exactly one readable block holding the workspace's operations once, and the store
+/// shows them. Nothing here depends on which thread wins or on how long a round takes.
+#[derive(Clone, Debug, Serialize, Deserialize)]
+pub struct SameWsCase {
+    pub threads: u8,
+    pub rounds: u16,
+    pub keys: Vec<u8>,
+}
+
+pub fn samews_strategy(t: Tier) -> impl Strategy<Value = SameWsCase> {
+    (2u8..=3, Just(t.pick(400u16, 1500u16)), prop::collection::vec(0u8..6, 1..4)).prop_map(|(threads, rounds, keys)| SameWsCase { threads, rounds, keys })
+}
+
+pub fn samews_check(c: &SameWsCase, ctx: &mut CaseCtx) -> Result<(), Fail> {
+    use std::sync::atomic::{AtomicUsize, Ordering};
+    let node = mk_node(3, false, 1000);
+    let chain = &node.chain;
+    let n = c.threads.clamp(2, 3) as usize;
+    let mut model = State::new();
+    let mut contended = 0u32;
+    for round in 0..c.rounds {
+        let ws = chain.begin().map_err(|e| Fail::new("samews:begin", e.to_string()))?;
+        let ops: Vec<Transaction> = c.keys.iter().map(|k| Transaction::Put { key: format!("k{k}"), data: vec![(round >> 8) as u8, round as u8, *k] }).collect();
+        for op in &ops {
+            ws.add_operation(op.clone()).map_err(|e| Fail::new("samews:add", e.to_string()))?;
+        }
+        let h0 = chain.height();
+        let ready = AtomicUsize::new(0);
+        let outcomes: Vec<Result<[u8; 32], (&'static str, String)>> = std::thread::scope(|s| {
+            let hs: Vec<_> = (0..n)
+                .map(|_| {
+                    let (ws, ready) = (&ws, &ready);
+                    s.spawn(move || {
+                        ready.fetch_add(1, Ordering::SeqCst);
+                        while ready.load(Ordering::SeqCst) < n {
+                            std::hint::spin_loop();
+                        }
+                        chain.commit(ws).map_err(|e| (err_class(&e), e.to_string()))
+                    })
+                })
+                .collect();
+            hs.into_iter().map(|h| h.join().unwrap_or_else(|_| Err(("panic", "commit panicked".to_string())))).collect()
+        });
+        let oks: Vec<&[u8; 32]> = outcomes.iter().filter_map(|o| o.as_ref().ok()).collect();
+        let describe = || outcomes.iter().map(|o| match o { Ok(h) => format!("Ok({})", short(h)), Err((c, _)) => format!("Err({c})") }).collect::<Vec<_>>().join(", ");
+        if outcomes.iter().any(|o| matches!(o, Err(("panic", _)))) {
+            ctx.fail("samews:panic", format!("round {round}: {}", describe()))?;
+            return Ok(());
+        }
+        if oks.len() != 1 {
+            ctx.fail("samews:ok-count", format!("round {round}: {n} threads committed the same workspace at once and {} calls answered Ok ({}); workspace is {:?}", oks.len(), describe(), ws.state()))?;
+            return Ok(());
+        }
+        if outcomes.iter().any(|o| matches!(o, Err((cls, _)) if *cls != "not-active")) {
+            contended += 1;
+            ctx.fail("samews:loser-error", format!("round {round}: a racing commit of an already committing workspace answered something other than 'not active': {}", describe()))?;
+            return Ok(());
+        }
+        let h1 = chain.height();
+        let blk = chain.get_block(h1).ok().flatten();
+        let in_place = blk.as_ref().is_some_and(|b| b.transactions == ops && header_hash(&b.header) == *oks[0]);
+        if h1 != h0 + 1 || !in_place || ws.state() != TransactionState::Committed {
+            ctx.fail(
+                "samews:not-one-block",
+                format!("round {round}: height {h0} -> {h1}, block at the head {} the workspace's operations under the answered hash, workspace {:?}; answers: {}", if in_place { "holds" } else { "does not hold" }, ws.state(), describe()),
+            )?;
+            return Ok(());
+        }
+        for op in &ops {
+            apply_tx(&mut model, op);
+        }
+    }
+    let _ = contended;
+    if let Err(e) = chain.verify() {
+        ctx.fail("samews:verify-failed", format!("verify() after {} rounds: {e}", c.rounds))?;
+        return Ok(());
+    }
+    if read_chain(chain).is_err() {
+        ctx.fail("samews:block-record-missing", "a block below the head cannot be read")?;
+        return Ok(());
+    }
+    let got = user_part(&observe(&node.store));
+    if got != model {
+        ctx.fail("samews:store-not-fold", format!("store differs from the committed workspaces: {}", diff(&got, &model)))?;
+        return Ok(());
+    }
+    ctx.set_nontrivial();
+    ctx.label(format!("samews:threads:{n}"));
+    Ok(())
+}
